@@ -186,23 +186,21 @@ Theorem C13_cow_committed_never_mutated : forall t x0 z, trie_ids_ok t ->
 Proof. exact committed_never_mutated. Qed.
 Print Assumptions C13_cow_committed_never_mutated.
 
-(* NOT PROVED (C13_persistence, full statement; C13_persistence_partial below is what is proved): for arbitrary branching histories, no operation of
-   ANY transaction changes what an earlier committed trie or an earlier iterator returns. The theorems
-   above cover the transaction that handed out the iterator and every transaction begun from the
-   committed trie itself. For a transaction y begun from a DIFFERENT trie t' the missing step is a heap
-   argument: a node reachable from t_root y with txnID = t_id y was allocated by y after its last id
-   bump (nodes of t' have ids < t_id y; y stamps only nodes it allocates), hence is not reachable from
-   any other trie or iterator although their nodes may carry the same id number. Nodes are tree values
-   in the model, so node identity / allocation is not expressible; this part is established by the
-   correspondence run only (branching histories, several live transactions from the same and from
-   different tries, every earlier trie and iterator re-read after every step, per-node txnIDs compared).
-   Contract assumed throughout: a Txn is not used after Commit before Reuse/Clear (Commit does not bump). *)
-Theorem C13_persistence_partial : forall x it t x0 z z',
+(* The theorems above are stated on the tree-valued model, where node identity / allocation is not
+   expressible: they cover the transaction that handed out the iterator and every transaction begun
+   from the committed trie itself (C13_persistence_tree_level below). The FULL statement — for
+   arbitrary branching histories no operation of ANY transaction, of any lineage and whatever its
+   ids, changes what an earlier committed trie or an earlier iterator returns — is proved on the
+   pointer-heap model at the end of this file (Module C13_Heap: C13_heap_refines_tree,
+   C13_inplace_writes_only_owned, C13_persistence_all_tries).
+   Contract assumed throughout: a Txn is not used after Commit before Reuse/Clear (Commit does not
+   bump the id; C13_use_after_commit_refuted shows the contract is necessary). *)
+Theorem C13_persistence_tree_level : forall x it t x0 z z',
   (txn_ids_ok x -> published x it -> steps x z -> txn_ids_ok z /\ Forall (no_inplace (t_id z)) it) /\
   (trie_ids_ok t -> (x0 = trie_txn t \/ exists x1, x0 = txn_reuse x1 t) -> steps x0 z' ->
      txn_ids_ok z' /\ no_inplace (t_id z') (r_root t)).
 Proof. exact (fun x it t x0 z z' => conj (iterator_never_mutated x it z) (committed_never_mutated t x0 z')). Qed.
-Print Assumptions C13_persistence_partial.
+Print Assumptions C13_persistence_tree_level.
 
 (* which calls bump the transaction id *)
 Theorem C13_txn_id_bookkeeping : forall x t k v q,
@@ -290,3 +288,137 @@ Theorem C13_table_lpm_list : forall u q t, TInv t -> Agree t ->
 Proof. exact ql_list_exact. Qed.
 Print Assumptions C13_table_lpm_list.
 End C13_TableLpm.
+
+(* ---- (f) persistence on the pointer heap (Lpm/Heap.v; HeapBase.v, HeapIns.v, HeapDel.v, HeapIds.v,
+        HeapProofs.v) -------------------------------------------------------------------------------
+   The heap model mirrors lpm/trie.go line by line on a heap of cells (hnode: key, value, imaginary,
+   txnID, two child pointers; addresses = indices; allocation = append): Txn.clone returns the address
+   itself iff the cell carries the txn id (it is then WRITTEN IN PLACE), otherwise appends a copy stamped
+   with the txn id; Insert (nodep slots, newNode, the imaginary fork), Delete (find loop, parents slice,
+   compression, the early return), Trie.Txn / Reuse / Clear / Commit, the id bump of All/Prefix/LowerBound.
+     den h p            the tree (Lpm/Model.v node) denoted by pointer p in heap h (fuel = heap size)
+     rep h p t          relational denotation: p represents t (acyclic, no dangling pointer); rep -> den
+     reach h p a        cell a is reachable from p
+     habs h x           the tree-level transaction (Lpm/Model.v txn) denoted by heap transaction x
+     x_own x            the cells x allocated since its id was last set / bumped
+     fresh h h'         the cells appended between h and h'
+     hinv P h x         invariant of a transaction: below the root, cells with id = txn id are exactly
+                        cells of x_own x, they form an unshared tree, all other cells have smaller ids
+                        (and satisfy P); established by Trie.Txn/Reuse from Cow.v's trie_ids_ok
+     sys, sstep         two live transactions a, b and the list s_pubs of all roots handed out so far
+                        (committed tries and iterator roots) on ONE heap; a step is an operation of a or
+                        of b: Insert, Delete, All/Prefix/LowerBound, Commit followed by Txn/Reuse on any
+                        handed-out trie, abandon followed by Txn/Reuse/Clear. The two transactions may
+                        stem from different tries; their ids may coincide (C13_heap_nonvacuous)
+     SInv s             hinv for a and b, their own-sets disjoint, nothing handed out reaches an owned cell
+     safe s r           nothing reachable from r is owned by a or b *)
+From SV Require Lpm.Heap Lpm.HeapBase Lpm.HeapIns Lpm.HeapDel Lpm.HeapIds Lpm.HeapProofs.
+Module C13_Heap.
+Import SV.Lpm.Heap SV.Lpm.HeapBase SV.Lpm.HeapProofs.
+
+(* the computed denotation is the relational one *)
+Theorem C13_heap_den_is_rep : forall h p t, rep h p t -> den h p = t.
+Proof. exact rep_den. Qed.
+Print Assumptions C13_heap_den_is_rep.
+
+(* Trie.Txn / Txn.Reuse on a trie with ids <= prevTxnID (Cow.v ids_ok): the invariant holds, nothing owned *)
+Theorem C13_heap_txn_start : forall (P : nat -> Prop) h t tr, rep h (hr_root t) tr -> ids_ok (hr_prev t) tr ->
+  (forall a, reach h (hr_root t) a -> P a) -> hinv P h (htrie_txn t).
+Proof. exact htrie_txn_inv. Qed.
+Print Assumptions C13_heap_txn_start.
+
+(* (a) REFINEMENT: Insert / Delete on the heap compute exactly what Lpm/Model.v computes on the denoted
+   tree (root tree incl. all txnIDs, size, id, returned value and flag) and preserve the invariant *)
+Theorem C13_heap_refines_tree : forall (P : nat -> Prop) h x k v, hinv P h x ->
+  (let h' := fst (htxn_insert h x k v) in let x' := snd (htxn_insert h x k v) in
+   hinv P h' x' /\ habs h' x' = txn_insert (habs h x) k v) /\
+  (let h' := fst (fst (htxn_delete h x k)) in let x' := snd (fst (htxn_delete h x k)) in
+   hinv P h' x' /\ (habs h' x', snd (htxn_delete h x k)) = txn_delete (habs h x) k).
+Proof. exact heap_refines_tree. Qed.
+Print Assumptions C13_heap_refines_tree.
+
+(* (b) OWNERSHIP: a reachable cell carries the txn id iff the txn allocated it since its last bump;
+   Insert / Delete overwrite only such cells and otherwise only append *)
+Theorem C13_inplace_writes_only_owned : forall (P : nat -> Prop) h x k v, hinv P h x ->
+  (forall a, reach h (x_root x) a -> (h_id (hget h a) = x_id x <-> In a (x_own x))) /\
+  (let h' := fst (htxn_insert h x k v) in let x' := snd (htxn_insert h x k v) in
+   (length h <= length h')%nat /\ x_own x' = x_own x ++ fresh h h' /\ x_id x' = x_id x /\
+   forall a, (a < length h)%nat -> ~ In a (x_own x) -> nth_error h' a = nth_error h a) /\
+  (let h' := fst (fst (htxn_delete h x k)) in let x' := snd (fst (htxn_delete h x k)) in
+   (length h <= length h')%nat /\ x_own x' = x_own x ++ fresh h h' /\ x_id x' = x_id x /\
+   forall a, (a < length h)%nat -> ~ In a (x_own x) -> nth_error h' a = nth_error h a).
+Proof. exact inplace_writes_only_owned. Qed.
+Print Assumptions C13_inplace_writes_only_owned.
+
+(* the system invariant holds initially (empty heap, New(), two transactions) and is preserved by
+   every step of either transaction *)
+Theorem C13_heap_system_invariant :
+  SInv sys0 /\ (forall s s', SInv s -> sstep s s' -> SInv s') /\ (forall s, ssteps sys0 s -> SInv s).
+Proof. exact (conj SInv_sys0 (conj sstep_inv reachable_SInv)). Qed.
+Print Assumptions C13_heap_system_invariant.
+
+(* (c) PERSISTENCE: over any interleaving of operations of the two transactions, every root handed
+   out before (committed trie or iterator) stays handed out and denotes the same trie, as does every
+   node below it (Prefix / LowerBound iterator stacks); more generally every pointer r of the heap that
+   reaches no owned cell — roots of other tries of ANY lineage, whatever their ids — denotes the same tree *)
+Theorem C13_persistence_all_tries : forall s s', SInv s -> ssteps s s' ->
+  SInv s' /\
+  (forall t, In t (s_pubs s) -> In t (s_pubs s') /\ habs_trie (s_heap s') t = habs_trie (s_heap s) t /\
+     forall r, reach (s_heap s) (hr_root t) r -> den (s_heap s') (Some r) = den (s_heap s) (Some r)) /\
+  (forall r t, rep (s_heap s) r t -> safe s r -> den (s_heap s') r = den (s_heap s) r).
+Proof. exact persistence_all_tries. Qed.
+Print Assumptions C13_persistence_all_tries.
+
+(* the other live transaction (begun from the same or from a different trie) is not disturbed either *)
+Theorem C13_other_txn_isolated : forall h a b ps h' a' ps', SInv (mkSys h a b ps) -> tstep h a ps h' a' ps' ->
+  habs h' b = habs h b.
+Proof. exact other_txn_isolated. Qed.
+Print Assumptions C13_other_txn_isolated.
+
+(* (d) the id test of Txn.clone alone is not enough: without `txn.txnID++` in All/Prefix/LowerBound a
+   later Insert of the same transaction changes what the iterator's root denotes (with the bump it does not) *)
+Theorem C13_iterator_nobump_refuted :
+  exists (h : heap) (x : htxn) (k : lkey) (v : N),
+    hinv (fun _ => True) h x /\
+    let it := x_root x in
+    den (fst (htxn_insert h (htxn_freeze_nobump x) k v)) it <> den h it /\
+    den (fst (htxn_insert h (htxn_freeze x) k v)) it = den h it.
+Proof. exact iterator_nobump_refuted. Qed.
+Print Assumptions C13_iterator_nobump_refuted.
+
+(* Commit does not bump: using the Txn after Commit without Reuse changes the committed trie *)
+Theorem C13_use_after_commit_refuted :
+  exists (h : heap) (x : htxn) (k : lkey) (v : N),
+    hinv (fun _ => True) h x /\
+    let t := htxn_commit x in
+    habs_trie (fst (htxn_insert h x k v)) t <> habs_trie h t /\
+    habs_trie (fst (htxn_insert h (htxn_reuse x t) k v)) t = habs_trie h t.
+Proof. exact use_after_commit_refuted. Qed.
+Print Assumptions C13_use_after_commit_refuted.
+
+(* non-vacuity: a reachable system (14 operations of two transactions, 18 cells, 5 handed-out roots) in
+   which two handed-out tries share a cell and the two live transactions, of different lineages, carry
+   the same id; an Insert through transaction b appends and writes in place, the denotation of the
+   transaction changes, the denotations of all handed-out tries, computed before and after, are equal *)
+Example C13_heap_nonvacuous :
+  let s := HeapExample.s_end in
+  let h := s_heap s in
+  let h' := fst (htxn_insert h (s_b s) ([10; 64], 10) 9) in
+  ssteps sys0 s /\ SInv s /\ hinv (fun a => ~ In a (x_own (s_a s))) h (s_b s) /\
+  (exists t1 t2 a, In t1 (s_pubs s) /\ In t2 (s_pubs s) /\ hr_root t1 <> hr_root t2 /\
+     reach h (hr_root t1) a /\ reach h (hr_root t2) a) /\
+  x_id (s_a s) = x_id (s_b s) /\ x_root (s_a s) <> x_root (s_b s) /\ x_own (s_b s) = [16; 17]%nat /\
+  length h = 18%nat /\ length h' = 21%nat /\ nth_error h' 17 <> nth_error h 17 /\
+  den h' (x_root (snd (htxn_insert h (s_b s) ([10; 64], 10) 9))) <> den h (x_root (s_b s)) /\
+  map (fun t => den h' (hr_root t)) (s_pubs s) = map (fun t => den h (hr_root t)) (s_pubs s) /\
+  den h (hr_root (nth 0 (s_pubs s) htrie_new)) =
+    Node ([10], 7) 0 true 2
+      (Node ([10], 8) 3 false 2 Nil (Node ([10; 128], 9) 1 false 1 Nil Nil))
+      (Node ([11; 0], 16) 5 false 2 Nil Nil).
+Proof.
+  destruct HeapExample.reachable_mid_end as (A & B & _ & I).
+  split; [eapply ssteps_trans; eauto|]. split; [exact I|]. split; [exact (proj1 (proj2 I))|].
+  split; [exact HeapExample.tries_share_cells|].
+  vm_compute. repeat split; try reflexivity; discriminate.
+Qed.
+End C13_Heap.
